@@ -117,10 +117,17 @@ def session_messages(chk):
     rng, thorough = chk.rng, chk.tier == "thorough"
     srv, cli = vlib.build_srv(), vlib.build_cli()
     msgs = []
-    for k in range(16 if thorough else 5):
+    echo_viol = []
+    chk._echo_viol = echo_viol
+    for k in range(32 if thorough else 12):
         g = srvgen.Gen(random.Random(chk.seed * 104729 + k), srv, bind=5353)
         h = g.run(400)
         ops = [s.op for s in h.steps]
+        # "each answer carries the id, name and type of the query it answers": every answer must match a received, unanswered query
+        import srvmon
+        mon = srvmon.run_monitors(h.steps, ("C14",))
+        for p_, i_, msg_ in mon.viol[:1]:
+            echo_viol.append((ops[:i_ + 1], msg_))
         base = g.srvtd[2:] if g.srvtd.startswith(b"*.") else g.srvtd
         for i, st in enumerate(h.steps):
             last_ans = None
@@ -143,6 +150,19 @@ def session_messages(chk):
                     msgs.append((vlib.unhx(e[2]), ops[:i + 1][-40:], exp))
                 elif e[0] == "fwd":
                     msgs.append((vlib.unhx(e[2]), ops[:i + 1][-40:], {"id": int(dq[2]) if dq else None, "name": vlib.unhx(dq[4]) if dq else None, "type": int(dq[3]) if dq else None}))
+    # write_dns for every type and downstream codec with payloads around the capacity of a host name / TXT chunk boundaries
+    wd = []
+    for t in TYPES:
+        for dn in "TSUVR":
+            for n in sorted(set(list(range(2, 12)) + list(range(140, 262, 1 if thorough else 3)) + [500, 503, 504, 505, 1000, 4096])):
+                wd.append("wd %d %d %s %s %s" % (rng.randrange(1, 65536), t, dn, vlib.hx(rng.choice([b"paaaa.t.co", b"p" + b"a" * 61 + b"." + b"b" * 62 + b".t.co"])),
+                                                 vlib.hx(bytes(rng.randrange(256) for _ in range(n)))))
+    rw = vlib.run_parallel(srv, wd)
+    for o, line in zip(wd, rw.lines):
+        t = o.split()
+        for e in line.split(" | "):
+            if e.startswith("tx "):
+                msgs.append((vlib.unhx(e.split()[2]), [o], {"id": int(t[1]), "name": vlib.unhx(t[4]), "type": int(t[2]), "answer": True}))
     # NS answers with ns.<domain>: directed
     for td in (b"t.example.com", b"a.bc"):
         for sub in (b"", b"x9.", b"abc.def."):
@@ -169,6 +189,9 @@ def session_messages(chk):
 def run(chk):
     msgs = session_messages(chk)
     bad = strict_both(chk, msgs, "datagram emitted by the real code")
+    for ops_, msg_ in getattr(chk, "_echo_viol", []):
+        chk.violation("C10 fails on the implementation: an answer does not carry the id, name and type of a query it answers: " + msg_, ops_, key="c10:echo-session")
+        bad += 1
     ops = wire_ops(chk)
     # ops on which the MODEL predicts a store beyond the given buffer (only with buffer sizes no caller of iodine uses: the callers pass
     # 4096 / 64 KiB for names of at most 255 bytes) are not run on the C side — ASan would abort on them; they are counted and listed
